@@ -66,6 +66,12 @@ def gen(tier, seed, shard, nshards):
             if b % nshards == shard:
                 yield "boundary", {"p": pm, "K": K, "size": size, "replace": True, "n_seeds": BSEEDS[tier] // 2, "base": seed}
             b += 1
+    # very large variable sets without replacement (where a generator may switch from "draw from what is left" to "draw and
+    # redraw on a clash"): rare slips need hundreds of seeds
+    for (pl, K, size) in ((10001, 2, 100), (20000, 3, 60), (12000, 2, (50, 120)), (50000, 4, 100)):
+        if b % nshards == shard:
+            yield "boundary", {"p": pl, "K": K, "size": size, "replace": False, "n_seeds": BSEEDS[tier] * 2, "base": seed}
+        b += 1
     # wrong-length tuples
     t = 0
     for pp in (1, 4, 9):
